@@ -361,13 +361,13 @@ func isWindowRange(first, last *Linear, recvIs func(t *Term) bool) bool {
 			if t.Sym == fld && v == 1 {
 				seenF = true
 			}
-			if t.Sym == "offset" && v == -1 {
+			if t.Sym == dr.offset && v == -1 {
 				seenO = true
 			}
 		}
 		return seenF && seenO
 	}
-	return chk(first, "minIndex") && chk(last, "maxIndex")
+	return chk(first, dr.minIndex) && chk(last, dr.maxIndex)
 }
 
 // isWholeArrayRange: 0 … len(x)−1
